@@ -94,6 +94,7 @@ enum EvalMode { GENERAL, NAME_REUSE, IMPERATIVE_CHAIN };
 Verdict evalWith(Ctx& c, EvalMode mode) {
   TypedGen g(c);
   g.optReuseNames = mode == NAME_REUSE;
+  g.optFreeProjections = mode == NAME_REUSE;
   if (mode == IMPERATIVE_CHAIN) g.optMinBase = 2;
   g.makeContext();
   Ty target; int depth = 1; EP e;
@@ -296,7 +297,7 @@ int main(int argc, char** argv) {
   std::vector<pbt::Prop> props;
   props.push_back({"witnesses", witnessProp, 0, 0, true, false, "literal expressions that exposed repaired defects, with their set-theoretic values"});
   props.push_back({"evaluate", evalProp, 2500, 40000, false, false, "type-directed expressions x contexts x data; 2-4 renderings each"});
-  props.push_back({"evaluate_name_reuse", evalReuseProp, 1200, 20000, false, false, "the same, with binders re-declaring names whose earlier scope has ended (sibling binders, domains of enumerated / tuple declarations)"});
+  props.push_back({"evaluate_name_reuse", evalReuseProp, 1200, 20000, false, false, "the same with a variant generator: binders re-declare names whose earlier scope has ended (sibling binders, domains of enumerated / tuple declarations), Pr with repeated / permuted index lists"});
   props.push_back({"evaluate_imperative_chains", evalImperativeProp, 800, 12000, false, false, "imperative constructors of 2-5 blocks in which every domain / assigned value / guard is built from the variables of earlier blocks"});
   props.push_back({"model_calculate", modelProp, 1200, 20000, false, false, "the same content as an RSModel: Calculate + SDataFor / StatementFor vs the reference value"});
   return pbt::main(argc, argv, "C01", props);
